@@ -3,7 +3,7 @@ import ast
 
 from sa import guards as G
 from sa.flow import GuardMap, Provenance
-from sa.repo import AnchorError, call_name, calls_in, dotted, norm, walk_no_nested, kwarg
+from sa.repo import ordk, AnchorError, call_name, calls_in, dotted, norm, walk_no_nested, kwarg
 from sa.util import bind_args
 from rules.aclshape import ApplyAcl, PATCHING
 
@@ -81,8 +81,13 @@ def r1(c):
         c.check("C10.R1", ok2, repo.loc(A.mod, rc), "apply_acl/recursive(fatal_acl=)", f"apply_acl passes fatal_acl={norm(e) if e is not None else 'its default (False)'} to its recursive call: "
                 "an uncovered line yielded inside a covered block is dropped silently instead of failing the generator", key_text="fatal-depth")
     # no later rebinding of config that bypasses the check
-    later = [n for n in walk_no_nested(fn) if isinstance(n, ast.Assign) and norm(n.targets[0]) == "config" and n.lineno > sc.lineno]
-    c.check("C10.R1", not later, repo.loc(m, later[0] if later else fn), "_run_partial_generator/no-rebind", "config is rebound after the ACL check", key_text="rebind")
+    later = []
+    if isinstance(cfg, ast.Name):
+        for d in pv.rd.defs(cfg):
+            if d.stmt is not None and ordk(d.stmt) > ordk(sc) and d.value is not None and not any(x is sc for x in pv.origin_calls(d.value, through_calls=False)):
+                later.append(d.stmt)
+    c.check("C10.R1", not later, repo.loc(m, later[0] if later else fn), "_run_partial_generator/no-rebind", "the result's config is rebound after the ACL check from something that did not pass it",
+            key_text="rebind")
 
 
 def r2(c):
@@ -332,8 +337,8 @@ def r6(c):
     pops = [x for x in calls_in(blk) if isinstance(x.func, ast.Attribute) and x.func.attr == "pop" and norm(x.func.value) in ("self._block_path", "self._indents")]
     emits = [x for x in calls_in(blk) if norm(x.func) == "self._append_text"]
     ok = {norm(x.func.value) for x in pushes} == {"self._block_path", "self._indents"} == {norm(x.func.value) for x in pops} and len(emits) == 1 \
-        and all(x.lineno < y.lineno for x in pushes + emits) and all(x.lineno > y.lineno for x in pops) \
-        and emits[0].lineno < [x for x in pushes if norm(x.func.value) == "self._indents"][0].lineno
+        and all(ordk(x) < ordk(y) for x in pushes + emits) and all(ordk(x) > ordk(y) for x in pops) \
+        and ordk(emits[0]) < ordk([x for x in pushes if norm(x.func.value) == "self._indents"][0])
     c.check("C10.R6", ok, repo.loc(m, blk), "TreeGenerator.block/push-pop", "block() does not emit its row, push path and indent before the body and pop both after it", key_text="push-pop")
     for name, seq, markers in (("block_if", "tokens", ("None", "''")), ("multiblock_if", "blocks", ("None",))):
         fn = byname.get(name)
